@@ -240,7 +240,7 @@ func indexTransitions(before, after *model.DB, table string) map[string]bool {
 	return out
 }
 
-const ruleC03 = "rapid state machine: generated schema with 1-3 global/local secondary indexes (hash-only and hash+range, sharing attributes with each other and with the table key), then Put (fresh, overwrite keeping / changing / dropping the index key), UpdateItem (SET / REMOVE of index key attributes), DeleteItem, ClearTable, UpdateTable index creation on a populated table (direct and through the AddIndex helper) and index deletion, over a pool of 3-5 keys and 2-3 index-key values; after every step, on both SDK clients: Scan of every index, Query of every index for every index hash value in use (both directions), DescribeTable per-index ItemCount, and the white-box invariant multiset(refs) == sortedKeys, refs subset of Data. Non-trivial = some index held >= 2 items at some point and the history contains a transition among {entered late, key changed, left, indexed item deleted, index created after items}; distinct = distinct hash of the operation list."
+const ruleC03 = "rapid state machine: generated schema with 1-3 global/local secondary indexes (hash-only and hash+range, sharing attributes with each other and with the table key), then Put (fresh, overwrite keeping / changing / dropping the index key), UpdateItem (SET / REMOVE of index key attributes), DeleteItem, ClearTable, writes refused for a wrongly typed index key (alone and inside batches), UpdateTable index creation on a populated table (direct and through the AddIndex helper) and index deletion, over a pool of 3-5 keys and 2-3 index-key values; after every step, on both SDK clients: Scan of every index, Query of every index for every index hash value in use (both directions), DescribeTable per-index ItemCount, and the white-box invariant multiset(refs) == sortedKeys, refs subset of Data. Non-trivial = some index held >= 2 items at some point and the history contains a transition among {entered late, key changed, left, indexed item deleted, index created after items}; distinct = distinct hash of the operation list."
 
 // TestC03 decides property C03.
 func TestC03(t *testing.T) {
@@ -257,6 +257,7 @@ func TestC03(t *testing.T) {
 		// "b" meets items that lack it, hold it with the right type, or with a
 		// wrong one
 		g.attrNames = []string{"a", "b", "c"}
+		g.failClasses = []string{"index-key-type-put", "index-key-type-update", "batch-index-key-type"}
 		fail := func(f *failure) {
 			if f != nil {
 				failCase(rt, "C03", "history:C03", f, w.asCase())
@@ -330,6 +331,15 @@ func TestC03(t *testing.T) {
 				lateIdx++
 				step(op)
 				g.adoptLateIndex(rt, w.m, op)
+			},
+			"refusedWrite": func(rt *rapid.T) {
+				// a write refused for an index key of the wrong type or size leaves every index as it was
+				if rapid.IntRange(0, 2).Draw(rt, "reallyRefused") != 1 {
+					return
+				}
+				op, _ := g.failingOp(rt, w.m)
+				op.TrySpec = true
+				step(op)
 			},
 			"delIndex": func(rt *rapid.T) {
 				t := w.m.Tables[s.Table]
